@@ -9,6 +9,7 @@ the Minkowski form" (`isIso_iff_preserves`).  Angles enter as `(c,s)` with `c²+
 translation lengths as `u ≠ 0`; `CharZero K` is needed only where the code divides by 2.
 -/
 import GT.Lemmas.Isometry
+import GT.Lemmas.FrameCompletion
 import GT.Model.LinAlgQ
 import GT.Properties.C01
 
@@ -17,7 +18,7 @@ open Finset BigOperators Matrix
 set_option linter.unusedSectionVars false
 
 namespace GT.C02
-open GT GT.Iso GT.LinAlgQ
+open GT GT.Iso GT.GS GT.LinAlgQ
 
 variable {K : Type*} [Field K] {n m : ℕ}
 
@@ -126,6 +127,69 @@ theorem reflectAcross_spec (D : Matrix (Fin (n + 1)) (Fin (n + 1)) K) (hD : IsUn
   · rw [hcl]; exact reflClosed_apply_self _ hq
   · intro i; rw [hcl]; exact reflClosed_apply_orth _ _ (horth i)
 
+/-! ## the SVD-based constructors, under the kernel contract
+
+`utils.kernel` (SVD) is a contract parameter `ker`: what is assumed of it is that its rows are
+Minkowski-orthogonal to the partial frame (`hker`) and in general position with it (`hnz`:
+Gram–Schmidt never produces the zero vector, i.e. all rows are linearly independent) and that
+there are enough of them to fill the matrix (`hlen`).  The exact residual of each of these
+assumptions is evaluated by the correspondence on every captured LAPACK call. -/
+
+section frames
+variable [LinearOrder K] [IsStrictOrderedRing K] {r : K → K}
+
+/-- `utils.find_isometry(minkowski, x :: rest)` with `x` timelike: `M J Mᵀ = J` -/
+theorem findIsometry_isIso (hr : IsSqrt r) (x : Fin (n + 1) → K) (rest ker : List (Fin (n + 1) → K))
+    (hx : mink x x < 0)
+    (hker : ∀ p ∈ x :: rest, ∀ k ∈ ker, mink p k = 0)
+    (hnz : ∀ u ∈ gs (minkJ n) (x :: rest) ++ gs (minkJ n) ker, u ≠ 0)
+    (hlen : (findIsometry r (minkJ n) (x :: rest) ker).length = n + 1) :
+    IsIso (rowsMatrix (findIsometry r (minkJ n) (x :: rest) ker) hlen) :=
+  findIsometry_isIso' hr x rest ker hx hker hnz hlen
+
+/-- `Point.origin_to` for an interior point `x` (any representative) -/
+theorem originTo_isIso (hr : IsSqrt r) (x : Fin (n + 1) → K) (ker : List (Fin (n + 1) → K)) (hx : mink x x < 0)
+    (hker : ∀ p ∈ [normalizeVec r (minkJ n) x], ∀ k ∈ ker, mink p k = 0)
+    (hnz : ∀ u ∈ gs (minkJ n) [normalizeVec r (minkJ n) x] ++ gs (minkJ n) ker, u ≠ 0)
+    (hlen : (originTo r x ker).length = n + 1) : IsIso (rowsMatrix (originTo r x ker) hlen) :=
+  findIsometry_isIso' hr _ [] ker (normalizeVec_timelike hr x hx) hker hnz hlen
+
+/-- `TangentVector.origin_to` for a tangent vector `v` at an interior point `x` -/
+theorem tangentOriginTo_isIso (hr : IsSqrt r) (x v : Fin (n + 1) → K) (ker : List (Fin (n + 1) → K))
+    (hx : mink x x < 0)
+    (hker : ∀ p ∈ [normalizeVec r (minkJ n) x, normalizeVec r (minkJ n) v], ∀ k ∈ ker, mink p k = 0)
+    (hnz : ∀ u ∈ gs (minkJ n) [normalizeVec r (minkJ n) x, normalizeVec r (minkJ n) v] ++ gs (minkJ n) ker, u ≠ 0)
+    (hlen : (tangentOriginTo r x v ker).length = n + 1) : IsIso (rowsMatrix (tangentOriginTo r x v ker) hlen) :=
+  findIsometry_isIso' hr _ _ ker (normalizeVec_timelike hr x hx) hker hnz hlen
+
+/-- (repaired) `hyperbolic.spacelike_to(v)` for spacelike `v`: the first row of the completed
+frame is timelike, so the result is an isometry -/
+theorem spacelikeTo_isIso (hr : IsSqrt r) (v : Fin (n + 1) → K) (ker : List (Fin (n + 1) → K)) (hv : 0 < mink v v)
+    (hker : ∀ p ∈ spacelikeFrame r v, ∀ k ∈ ker, mink p k = 0)
+    (hnz : ∀ u ∈ gs (minkJ n) (spacelikeFrame r v) ++ gs (minkJ n) ker, u ≠ 0)
+    (hlen : (spacelikeTo r v ker).length = n + 1) : IsIso (rowsMatrix (spacelikeTo r v ker) hlen) := by
+  obtain ⟨t, rest, hfr, ht⟩ := spacelikeFrame_timelike hr v hv
+  unfold spacelikeTo at hlen ⊢
+  revert hlen hker hnz
+  rw [hfr]
+  intro hker hnz hlen
+  exact findIsometry_isIso' hr t rest ker ht hker hnz hlen
+
+/-- `force_oriented=True` (`make_orientation_preserving`): still an isometry, now with `det > 0` -/
+theorem makeOriented_isIso {M : Matrix (Fin (n + 1)) (Fin (n + 1)) K} (h : IsIso M) :
+    IsIso (makeOriented M) ∧ 0 < (makeOriented M).det := by
+  have hdet : M.det ≠ 0 := fun h0 => by have := isIso_det_sq h; rw [h0] at this; simp at this
+  exact makeOriented_spec' (minkJ n) M (minkDiag n) h hdet
+
+/-- `CoxeterGroup.hyperbolic_rep`: if `ρ(g)` preserves the cosine form `B` (C08) and
+`diagonalize_form(B)` returned `(W, Winv)` with `Wᵀ B W = J`, `W Winv = 1` (C18), the stored
+matrix `(Winv ρ(g) W)ᵀ` is an isometry -/
+theorem hyperbolicRep_isIso (B W Winv rho : Matrix (Fin (n + 1)) (Fin (n + 1)) K)
+    (hB : rhoᵀ * B * rho = B) (hW : Wᵀ * B * W = minkJ n) (hinv : W * Winv = 1) :
+    IsIso (hyperbolicRepMat W Winv rho) := hyperbolicRepMat_isIso B W Winv rho hB hW hinv
+
+end frames
+
 /-! ## what preserving the form gives -/
 
 /-- `IsIso M` says exactly that `x ↦ xM` preserves the Minkowski form -/
@@ -182,5 +246,11 @@ example : IsUnit (!![0, 1, 0; 1, 0, 1; 1, 0, -1] : Matrix (Fin 3) (Fin 3) ℚ).d
   · rw [Matrix.det_fin_three]; simp
   · simp [mink, dot, Fin.sum_univ_succ, Fin.tail]
   · simp [mink, dot, Fin.sum_univ_succ, Fin.tail]
+
+/-- the hypotheses of `findIsometry_isIso` hold for the frame `x = (5/3, 4/3, 0)` with kernel
+basis `(4/5, 1, 0), (0, 0, 1)` -/
+example : mink (![5/3, 4/3, 0] : Fin 3 → ℚ) ![5/3, 4/3, 0] < 0 ∧
+    mink (![5/3, 4/3, 0] : Fin 3 → ℚ) ![4/5, 1, 0] = 0 ∧ mink (![5/3, 4/3, 0] : Fin 3 → ℚ) ![0, 0, 1] = 0 := by
+  refine ⟨?_, ?_, ?_⟩ <;> simp [mink, dot, Fin.sum_univ_succ, Fin.tail] <;> norm_num
 
 end GT.C02
